@@ -1,5 +1,7 @@
 #!/bin/sh
 # run before committing a manifest/spec change: every claimed check must exit 0 on the unchanged tree and write valid evidence
+# same environment as the acceptance run
+export VERIF_SEED=1 VERIF_TIER=quick
 cd /verif && ./tools_sync.sh >/dev/null
 fail=0
 for p in $(python3 -c "import json;print(' '.join(c['property_id'] for c in json.load(open('/verif/MANIFEST.json'))['checks']))"); do
